@@ -12,6 +12,7 @@ pub mod c04;
 pub mod c05;
 pub mod c06;
 pub mod c07;
+pub mod c08;
 pub mod c09;
 pub mod c10;
 pub mod c12;
@@ -102,6 +103,7 @@ pub fn run_check(id: &str, tier: &str) -> i32 {
         "C05" => c05::run(tier),
         "C06" => c06::run(tier),
         "C07" => c07::run(tier),
+        "C08" => c08::run(tier),
         "C09" => c09::run(tier),
         "C10" => c10::run(tier),
         "C12" => c12::run_c12(tier),
@@ -139,6 +141,7 @@ pub fn run_replay(path: &str) -> i32 {
         "C05" => c05::replay(&f),
         "C06" => c06::replay(&f),
         "C07" => c07::replay(&f),
+        "C08" => c08::replay(&f),
         "C09" => c09::replay(&f),
         "C10" => c10::replay(&f),
         "C12" => c12::replay_c12(&f),
